@@ -288,6 +288,12 @@ class Body:
             if 'p' in d and d['p']['l'] == 1 and d['p']['pr']:
                 m[tuple(d['p']['pr'])] = d['name']
         return m
+    def upvars_of_type(self, ty):
+        """names of captured variables of exactly this type (closures / coroutines)"""
+        return {d['name'] for d in self.debug if 'p' in d and d['p']['l'] == 1 and d['p']['pr'] and d['p'].get('ty') == ty}
+    def upvars_where(self, pred):
+        """names of captured variables whose type string satisfies pred"""
+        return {d['name'] for d in self.debug if 'p' in d and d['p']['l'] == 1 and d['p']['pr'] and pred(d['p'].get('ty') or '')}
     def local_ty(self, l):
         return self.locals[l]['ty']
     def preds(self):
